@@ -184,10 +184,11 @@ def run_schedule(seed, kind, strategy, scratch, park=None, stick=0.9, pct_depth=
                     tm.get().note(tok)
                     if rnd.random() < 0.25:
                         tm.get().join(NoVoter(tm))          # the commit fails after the storage voted
-                    s.log('commit_call', name)
+                    rec['call'] = s.log('commit_call', name)
                     tm.commit()
                     rec['outcome'] = 'ok'
                     rec['ret'] = s.log('commit_ret', name)
+                    rec['lt'] = db.storage.lastTransaction()       # what the storage calls its last transaction right after this commit
                     rec['tid'] = None        # attributed after the run from the storage history (unique token)
                 except (ConflictError, VoteNo) as e:
                     rec['outcome'] = type(e).__name__
@@ -334,6 +335,20 @@ def run_schedule(seed, kind, strategy, scratch, park=None, stick=0.9, pct_depth=
     commits.sort()
     out['ok_commits'] = len(commits)
     out['conflicts'] = len([t for t in txlog if t['kind'] == 'w' and t['outcome'] != 'ok'])
+    # ---- transaction ids follow the commit order: a commit called after another one had returned gets the greater id
+    oks = [t for t in txlog if t['kind'] == 'w' and t['outcome'] == 'ok' and t.get('tid')]
+    for x in oks:
+        for y in oks:
+            if x['ret'] < y['call'] and not x['tid'] < y['tid']:
+                v2.append(('transaction-ids-do-not-follow-the-commit-order', x['client'], y['client'], u64(x['tid']), u64(y['tid'])))
+                v3.append(('transaction-ids-do-not-follow-the-commit-order', x['client'], y['client'], u64(x['tid']), u64(y['tid'])))
+    # ---- lastTransaction() never falls behind a commit that has returned (ids are handed out in commit order)
+    for x in oks:
+        L = max([y['tid'] for y in oks if y['ret'] <= x['ret']])
+        if x['lt'] < L:
+            w = ('lastTransaction-behind-a-commit-that-had-returned', x['client'], u64(x['lt']), u64(L))
+            v2.append(w)
+            v3.append(w)
     # ---- C02: every transaction's reads fit one point of the commit order, no older than the last commit completed before its boundary
     for t in txlog:
         if not t['reads']:
